@@ -130,7 +130,7 @@ def run(ck):
                 hdr_end = {'CompletePkt': 4 + L, 'FirstFragPkt': 7 + L, 'IntermediateFragPkt': 3, 'EndFragPkt': 3}[kind]
                 if not (got['gse_len'][0] == 'int' and w.store.entails_eq(got['gse_len'][1], gl)):
                     bad.append('gse_len')
-                if 'frag_id' in got and not is_be(got['frag_id'], buf, 2, 1):
+                if 'frag_id' in got and not is_be(got['frag_id'], buf, 2, 1, w):
                     bad.append('frag_id')
                 if 'total_length' in got and not is_be(got['total_length'], buf, 3, 2):
                     bad.append('total_length')
@@ -215,16 +215,22 @@ def classify(a, W, src, fld, self_root, fnames):
             return 'label'
         if content[0] == 'elems' and not content[1]:
             return 'label'
+        if content[0] == 'elems' and len(content[1]) == 1 and 'frag_id' in fld and content[1][0] == fld['frag_id']:
+            return 'frag_id'          # `[self.frag_id]` instead of `self.frag_id.to_be_bytes()`
         return 'arr?'
     if src[0] == 'seq':
         return 'pdu'
     return '?'
 
 
-def is_be(v, buf, off, n):
+def is_be(v, buf, off, n, w=None):
     if v[0] != 'int' or len(v[1].terms) != 1 or v[1].const != 0:
         return False
     d = ATOMS.info(v[1].terms[0][0]).defn
+    if n == 1 and d and d[0] == 'elem' and w is not None:
+        # a single byte read by plain indexing / a slice pattern: the cell buffer[off]
+        sv = w.mem.get(buf[1].root)
+        return bool(sv) and sv[0] == 'seq' and d[1] == sv[4] and d[2] == Lin.c(off) and not buf[1].path and buf[1].root not in w.written
     return bool(d) and d[0] == 'be' and d[1] == buf[1] and d[2] == Lin.c(off) and d[3] == n
 
 
